@@ -58,17 +58,6 @@ Proof.
 Qed.
 
 (* ================================================================== hoisting *)
-(* sort key of the hoisting: __future__ imports, other imports, everything else *)
-Definition rank (t : top) : nat := if is_future t then 0 else if is_import t then 1 else 2.
-Definition nonimp (t : top) : bool := negb (is_import t).
-Definition rank_is (k : nat) (t : top) : bool := Nat.eqb (rank t) k.
-
-(* the three-way stable partition the hoisting performs on what follows the docstring *)
-Definition hoist3 (l : list top) : list top :=
-  filter is_future l ++ filter is_plain_import l ++ filter nonimp l.
-
-Definition doc_part (body : list top) : list top := if has_doc body then firstn 1 body else [].
-Definition rest_part (body : list top) : list top := if has_doc body then skipn 1 body else body.
 
 Lemma is_future_import : forall t, is_future t = true -> is_import t = true.
 Proof. intros [b s d|[m|] s|c n s|ns s|s]; cbn; intros H; try discriminate; reflexivity. Qed.
@@ -240,9 +229,6 @@ Proof.
     unfold nonimp in Hx. apply negb_true_iff in Hx. exact Hx.
 Qed.
 
-(* statements that are neither imports nor string statements, appended to a body, stay where they are *)
-Definition plain_stmt (t : top) : bool :=
-  match t with TStr _ _ _ => false | TImport _ _ => false | _ => true end.
 
 Lemma plain_stmt_nonimp : forall t, plain_stmt t = true -> is_import t = false /\ is_future t = false.
 Proof. intros [b s d|m s|c n s|ns s|s]; cbn; intros H; try discriminate; split; reflexivity. Qed.
@@ -287,8 +273,6 @@ Proof.
 Qed.
 
 (* ================================================================== str.format with {name} *)
-Definition brace_free (s : str) : bool :=
-  forallb (fun c => negb (ascii_eqb c lbrace || ascii_eqb c rbrace)) s.
 
 Lemma format_aux_literal : forall pre s name,
     brace_free pre = true -> format_aux (pre ++ s) FLit name = gapp pre (format_aux s FLit name).
@@ -324,8 +308,6 @@ Proof.
 Qed.
 
 (* ================================================================== the loop over the mapping *)
-Definition texts_of (es : list entry) : list str :=
-  map (fun e => match e_res e with Emitted t => t | _ => [] end) es.
 
 Lemma names_of_cons : forall tpl e r names,
     names_of tpl (e :: r) = GOk names ->
@@ -353,7 +335,6 @@ Proof.
   induction H as [|e n es' ns' _ _ IH]; [reflexivity|cbn; rewrite IH; reflexivity].
 Qed.
 
-Definition two_types (type_ : str) : Prop := type_ = L "class" \/ type_ = L "argparse".
 
 Lemma two_types_kwargs : forall type_ o nm, two_types type_ ->
     exists kw, type_kwargs type_ o nm = Some kw
@@ -1768,10 +1749,32 @@ Proof.
   destruct (IH Hr) as [Hq Hn]. unfold safe_char in Hc.
   apply andb_true_iff in Hc. destruct Hc as [Hc1 Hc3]. apply andb_true_iff in Hc1. destruct Hc1 as [Hc1 Hc2].
   apply negb_true_iff in Hc3. apply orb_false_iff in Hc3. destruct Hc3 as [Hm _].
-  cbn. rewrite Hq, Hn, !andb_true_r. split.
+  unfold quote_free, no_nl. cbn [forallb]. fold (quote_free r). fold (no_nl r).
+  rewrite Hq, Hn, !andb_true_r. split.
   - apply negb_true_iff. unfold mem_c in Hm. cbn [L String.list_ascii_of_string existsb] in Hm.
     apply orb_false_iff in Hm. apply Hm.
   - apply negb_true_iff. apply ascii_eqb_neq. intros E. subst c. cbn in Hc1. discriminate Hc1.
+Qed.
+
+Lemma toy_line_all : forall l, startswith (L "__all__ = [") l = true ->
+    toy_line l = Some [TAll (segs l false []) l].
+Proof.
+  intros l H. apply startswith_iff in H. destruct H as [r Hr]. subst l. reflexivity.
+Qed.
+
+Lemma no_nl_quote1 : forall n, no_nl n = true -> no_nl (quote1 n) = true.
+Proof.
+  intros n H. unfold quote1, no_nl in *. cbn [forallb]. rewrite forallb_app, H. reflexivity.
+Qed.
+
+Lemma no_nl_items : forall names, forallb no_nl names = true -> no_nl (join (L ", ") (map quote1 names)) = true.
+Proof.
+  induction names as [|n r IH]; intros H; [reflexivity|].
+  cbn [forallb] in H. apply andb_true_iff in H. destruct H as [Hn Hr]. destruct r as [|n2 r2].
+  - cbn [map join]. apply no_nl_quote1. exact Hn.
+  - change (join (L ", ") (map quote1 (n :: n2 :: r2)))
+      with (quote1 n ++ L ", " ++ join (L ", ") (map quote1 (n2 :: r2))).
+    rewrite !no_nl_app, (no_nl_quote1 n Hn), (IH Hr). reflexivity.
 Qed.
 
 Lemma toy_all : forall names, forallb safe_name names = true ->
@@ -1784,22 +1787,12 @@ Proof.
     destruct (safe_name_facts n Hn) as [C D]. cbn. rewrite A, B, C, D. split; reflexivity. }
   destruct HQ as [HQ HN].
   assert (Hnl : no_nl (all_text names) = true).
-  { unfold all_text. rewrite !no_nl_app. cbn [no_nl forallb L String.list_ascii_of_string]. cbn.
-    rewrite andb_true_r. clear H HQ. induction names as [|n r IH]; [reflexivity|].
-    cbn in HN. apply andb_true_iff in HN. destruct HN as [Hn Hr]. destruct r as [|n2 r2].
-    - cbn [map join]. unfold quote1. change (ch 39 :: n ++ [ch 39]) with ([ch 39] ++ n ++ [ch 39]).
-      rewrite !no_nl_app, Hn. reflexivity.
-    - change (join (L ", ") (map quote1 (n :: n2 :: r2)))
-        with (quote1 n ++ L ", " ++ join (L ", ") (map quote1 (n2 :: r2))).
-      rewrite !no_nl_app, (IH Hr). unfold quote1. change (ch 39 :: n ++ [ch 39]) with ([ch 39] ++ n ++ [ch 39]).
-      rewrite !no_nl_app, Hn. reflexivity. }
+  { unfold all_text. rewrite !no_nl_app, (no_nl_items names HN). reflexivity. }
   rewrite (toy_parse_single _ Hnl).
   assert (HS : segs (all_text names) false [] = names).
   { unfold all_text. rewrite (segs_outside_quote_free (L "__all__ = [") eq_refl).
     apply segs_items; [exact HQ|reflexivity]. }
-  unfold toy_line. unfold all_text at 1. cbn [L String.list_ascii_of_string app].
-  cbn [startswith ascii_eqb Ascii.eqb Bool.eqb andb].
-  fold (L "__all__ = ["). change (ch 95 :: ch 95 :: _) with (all_text names) at 1.
+  rewrite (toy_line_all (all_text names)) by (unfold all_text; apply startswith_app).
   rewrite HS. reflexivity.
 Qed.
 
